@@ -821,3 +821,8 @@ _E9_OLD = "    if times.dtype.kind in 'mM':\n        times = times.astype(f'{tim
 add("E9", "break", EMAS, "_times_to_int_array", _E9_OLD, "", name="E9 clock in the array's own unit (the defect repaired in round 4)")
 add("E9", "break", EMAS, "_times_to_int_array", _E9_OLD, "    if times.dtype.kind in 'mM':\n        times = times.astype(f'{times.dtype.kind}8[us]')\n", name="E9 clock in microseconds")
 add("E9", "keep", EMAS, "_times_to_int_array", _E9_OLD, "    if times.dtype.kind == 'M':\n        times = times.astype('datetime64[ns]')\n    elif times.dtype.kind == 'm':\n        times = times.astype('timedelta64[ns]')\n", name="E9 explicit dtypes")
+_D10_OLD = "        else:\n            values = NumbaList(values)\n"
+add("D10", "break", NB, "_group_func_wrap", _D10_OLD, "", name="D10 chunked values left as a tuple (the defect repaired in round 4)")
+add("D10", "break", NB, "_group_func_wrap", _D10_OLD, "        else:\n            values = list(values)\n", name="D10 chunked values as a plain list")
+add("D10", "keep", NB, "_group_func_wrap", _D10_OLD, "        else:\n            values = NumbaList(list(values))\n", name="D10 typed list built from a list")
+add("D10", "keep", NB, "_chunk_groupby_args", "if isinstance(values, NumbaList):", "if isinstance(values, (NumbaList, list, tuple)):", name="D10 dispatcher accepts the other containers too", also=[(NB, "_group_func_wrap", _D10_OLD, "")])
